@@ -185,6 +185,11 @@ func (e *Engine) checkInverted(
 		go check(ctx, innerCh)
 		select {
 		case result := <-innerCh:
+			// never turn a failed check into a decision
+			if result.Err != nil {
+				resultCh <- checkgroup.Result{Err: result.Err}
+				return
+			}
 			// invert result here
 			switch result.Membership {
 			case checkgroup.IsMember:
